@@ -569,7 +569,12 @@ spifconf_shell_expand(spif_charptr_t s)
                   }
               }
               if (!builtins[k].name) {
-                  newbuff[j] = *pbuff;
+                  if (*pbuff) {
+                      newbuff[j] = *pbuff;
+                  } else {
+                      /* A '%' at the very end of the line:  keep it and stop there. */
+                      newbuff[j] = *(--pbuff);
+                  }
               } else {
                   D_CONF(("Call to built-in function %s detected.\n", builtins[k].name));
                   Command = (spif_charptr_t) MALLOC(CONFIG_BUFF);
@@ -589,7 +594,10 @@ spifconf_shell_expand(spif_charptr_t s)
                             break;
                       }
                   }
-                  *(--tmp1) = 0;
+                  if (tmp1 > Command) {
+                      tmp1--;
+                  }
+                  *tmp1 = 0;
                   if (l) {
                       libast_print_error("parse error in file %s, line %lu:  Mismatched parentheses\n", file_peek_path(), file_peek_line());
                       return (spif_charptr_t) NULL;
